@@ -87,7 +87,7 @@ def semantic(p):
                 "kind": "transform",
                 "degrees": bool(d.is_in_degrees),
                 "displacement": _try(lambda: [float(x) for x in d.displacement_vector]),
-                "rotation": _try(lambda: [[float(x) for x in row] for row in d.rotation_matrix]),
+                "rotation": _try(lambda: [[float(x) for x in row] for row in d.rotation_matrix] if getattr(d.rotation_matrix, "ndim", 1) == 2 else [float(x) for x in d.rotation_matrix]),
                 "main_to_aux": bool(d.is_main_to_aux),
             }
         elif isinstance(d, mode.Mode):
@@ -255,7 +255,7 @@ def misread(den, sem):
                 continue
             if not all(_close(a, b) for a, b in zip(vals[:3], y["displacement"])):
                 out.append(("transform-displacement", w, ([str(v) for v in vals[:3]], y["displacement"])))
-            if len(vals) >= 12 and isinstance(y["rotation"], list):
+            if len(vals) >= 12 and isinstance(y["rotation"], list) and len(y["rotation"]) == 3 and all(isinstance(r, list) and len(r) == 3 for r in y["rotation"]):
                 flat = [x for row in y["rotation"] for x in row]
                 flat_t = [y["rotation"][r][c] for c in range(3) for r in range(3)]
                 if not (all(_close(a, b) for a, b in zip(vals[3:12], flat)) or all(_close(a, b) for a, b in zip(vals[3:12], flat_t))):
